@@ -26,9 +26,9 @@ Theorem C14_new_stream_refused : forall c dl, ginv c -> CF.k_goaway c = true ->
 Proof. exact no_new_stream_after_goaway. Qed.
 Print Assumptions C14_new_stream_refused.
 
-(* "streams with id <= N are not failed by the GOAWAY": every stream the GOAWAY handler
+(* "streams with id <= N are not failed by the GOAWAY": every stream an accepted GOAWAY(N)
    terminates has id > N (and ends Unavailable, unprocessed). *)
-Theorem C14_le_N_untouched : forall c id code e,
+Theorem C14_le_N_untouched : forall c id code e, accepted_goaway c id = true ->
   In e (snd (CF.exec_op c (CF.OGoAway id code))) -> CF.tag e = 1 ->
   id < CF.esid e /\ CF.ecode e = 14 /\ snd e = 1.
 Proof. exact goaway_le_N_untouched. Qed.
@@ -43,22 +43,29 @@ Theorem C14_gt_N_unprocessed : forall c id code s,
 Proof. exact goaway_gt_N_unprocessed. Qed.
 Print Assumptions C14_gt_N_unprocessed.
 
-(* "a later GOAWAY with a larger id is a connection error" is FALSE of the code: handleGoAway
-   returns the connection error, but the reader only stores it (errClose) and keeps reading, so
-   such a GOAWAY - and one with a non-zero even id - is ignored ... *)
-Theorem C14_bogus_goaway_ignored : forall c id code,
-  accepted_goaway c id = false -> CF.exec_op c (CF.OGoAway id code) = (c, []).
-Proof. exact bogus_goaway_ignored. Qed.
-Print Assumptions C14_bogus_goaway_ignored.
+(* "a later GOAWAY with a larger id is a connection error": the transport is closed (mode 2, the
+   peer sees the connection close), no stream stays active, and every stream that was active
+   ends Unavailable with its Unprocessed flag unchanged. *)
+Theorem C14_second_larger_is_error : forall c id code, CF.k_goaway c = true -> CF.k_prev c < id ->
+  CF.exec_op c (CF.OGoAway id code) = CF.close_conn c /\
+  CF.k_mode (fst (CF.close_conn c)) = 2 /\ CF.any_active (fst (CF.close_conn c)) = false /\
+  In (8, 0, 0, 0) (snd (CF.close_conn c)) /\
+  forall s, In s (CF.k_streams c) -> CF.active s = true ->
+            In (1, CF.x_id s, 14, b2z (CF.x_unproc s)) (snd (CF.close_conn c)).
+Proof. exact second_larger_is_error. Qed.
+Print Assumptions C14_second_larger_is_error.
 
-(* ... witness: two streams, GOAWAY(1), GOAWAY(3): nothing happens, the connection stays open
-   (draining) with stream 1 active. *)
-Theorem C14_second_larger_goaway_refuted :
-  let c := creach CF.conn0 [CF.ONew 0; CF.ONew 0; CF.OGoAway 1 0] in
-  CF.k_goaway c = true /\ CF.k_prev c = 1 /\
-  CF.step c (CF.OGoAway 3 0) = (c, []) /\ CF.k_mode c = 1 /\ CF.any_active c = true.
-Proof. exact second_larger_goaway_refuted. Qed.
-Print Assumptions C14_second_larger_goaway_refuted.
+(* a GOAWAY with a non-zero even last-stream-id is the same connection error *)
+Theorem C14_even_goaway_is_error : forall c id code, 0 < id -> Z.even id = true ->
+  CF.exec_op c (CF.OGoAway id code) = CF.close_conn c.
+Proof. exact even_goaway_is_error. Qed.
+Print Assumptions C14_even_goaway_is_error.
+
+(* every GOAWAY is either accepted or that connection error *)
+Theorem C14_bogus_goaway_is_conn_error : forall c id code,
+  accepted_goaway c id = false -> CF.exec_op c (CF.OGoAway id code) = CF.close_conn c.
+Proof. exact bogus_goaway_is_conn_error. Qed.
+Print Assumptions C14_bogus_goaway_is_conn_error.
 
 (* Server: the final GOAWAY carries maxStreamID, which bounds every active (accepted) stream;
    the transport is not reachable afterwards. *)
@@ -100,8 +107,8 @@ Theorem C14_final_id_refuted :
 Proof. exact final_id_refuted. Qed.
 Print Assumptions C14_final_id_refuted.
 
-(* The predicate evaluated on implementation traces (all clauses except the three literal
-   readings refuted above) holds on every trace of the model. *)
+(* The predicate evaluated on implementation traces (all clauses except the literal reading 8
+   refuted above) holds on every trace of the model. *)
 Theorem C14_holds_on_every_model_trace : forall cfg ops, wf cfg ops = true ->
   exists obs, run cfg ops = Some obs /\ holds_b cfg ops obs = true.
 Proof. exact model_trace_holds. Qed.
@@ -114,3 +121,9 @@ Example C14_witness :
   Some [[1; 1; 1] ++ handler_event 1 false; [1; 1; 1; 7; 2147483647; 0; 0; 6; 0; 0; 0]; [1; 1; 1; 7; 1; 0; 0];
         [1; 1; 3]; [0; 1; 3; 1; 1; 200; 0; 3; 1; 0; 0]; [0; 1; 3; 8; 0; 0; 0]].
 Proof. vm_compute. reflexivity. Qed.
+
+(* two streams, GOAWAY(1), GOAWAY(3): the second one closes the connection, stream 1 ends Unavailable *)
+Example C14_witness_second_larger :
+  CF.run [] [[1; 0]; [1; 0]; [7; 1; 0]; [7; 3; 0]] =
+  Some [[0; 1; 0; 0]; [0; 3; 0; 0]; [1; 3; 14; 1]; [1; 1; 14; 0; 8; 0; 0; 0]; []].
+Proof. exact second_larger_witness. Qed.
